@@ -612,6 +612,69 @@ def oracle_refusal(proc, lib: FakeADwinLib, op, param, arrays, pre_snap, raw):
     return None
 
 
+def oracle_start(proc, lib: FakeADwinLib, kw: list, param, arrays, pre_snap, raw, started_before):
+    """`start_with_params(**kw)` is a batch write of *every* program parameter: afterwards each parameter's register holds
+    the value given for it under ANY spelling of its name, and 0 only if no spelling of it was given — the same as
+    set_par one name at a time, then start.  Two spellings of one name in one call must be refused or resolved to one
+    of the values given (never silently to the default).  Leaves `lib` in the post-call state.  (clause, detail) or None."""
+    if not all(reg_valid(d, arrays) for d in param.values()):
+        return None
+    given: dict = {}
+    for k, v in kw:
+        for name in param:
+            if fold(name) == fold(k):
+                given.setdefault(name, []).append(v)
+    # values must fit the register (0 fits every register)
+    for name, vals in given.items():
+        t = type(param[name]).__name__
+        for v in vals:
+            if isinstance(v, bool) or not isinstance(v, (int, float)):
+                return None
+            if (t == "ParDesc" or (t == "ArrayElemDesc" and arrays[param[name].data_index][1])) and not isinstance(v, int):
+                return None
+    regs = [show_desc(d) for d in param.values()]
+    if len(set(regs)) != len(regs):
+        return None                      # a hand-configured table with two names on one register
+    post = lib.snapshot()
+    touched = lib.touched()
+    cls = "+".join(sorted({{"ParDesc": "par", "FParDesc": "fpar", "ArrayElemDesc": "elem"}[type(d).__name__] for d in param.values()}))
+    multi = any(len(v) > 1 and len({num(x) for x in v}) > 1 for v in given.values())
+    spell = "two-spellings" if any(len(v) > 1 for v in given.values()) else \
+            ("other-spelling" if any(k not in param for k, _ in kw) else "source-spelling")
+    if isinstance(raw, BaseException):
+        if multi:
+            return None                  # refusing a call that names one parameter twice with different values is fine
+        return f"start:raises-{type(raw).__name__}:{spell}:{cls}", repr(raw)[:160]
+    keep = lib.log
+    try:
+        if getattr(lib, "started", 0) != started_before + 1:
+            return f"start:process-not-started:{spell}:{cls}", ""
+        for name, d in param.items():
+            got = lib.read_reg(reg_spec(d))
+            want = [num(v) for v in given.get(name, [0])]
+            if num(got) not in want:
+                why = "default-written-although-a-value-was-given" if (name in given and num(got) == num(0)) else "register-holds-another-value"
+                return f"start:{why}:{spell}:{cls}", f"{name!a} -> {show_desc(d)}: holds {got!r}, given {given.get(name, 'nothing (0 expected)')!r}; call {kw!a}"[:300]
+        bound = {show_desc(d) for d in param.values()}
+        if touched != bound:
+            return f"start:touch-set-wrong:{spell}:{cls}", f"{sorted(touched ^ bound)[:4]}"
+        if not multi:
+            # the same as one name at a time
+            lib.restore(pre_snap)
+            lib.log = []
+            try:
+                for name in param:
+                    proc.set_par(name, given.get(name, [0])[0])
+            except Exception as e:  # noqa
+                return f"start:one-at-a-time-raises-{type(e).__name__}:{spell}:{cls}", repr(e)[:120]
+            if lib.snapshot() != post:
+                return f"start:registers-differ-from-one-at-a-time:{spell}:{cls}", str(kw)[:200]
+        return None
+    finally:
+        lib.log = keep
+        lib.restore(post)
+
+
 def class_of(op, param):
     """input class used in signatures: which register kinds, and whether array elements are adjacent"""
     names = list(op[1]) if op[0] == "mget" else [n for n, _ in op[1]]
@@ -926,8 +989,18 @@ def gen_ops(rng, param: dict, arrays: dict, n_ops: int):
         else:
             if all(reg_valid(d, arrays) for d in param.values()):
                 kw, seen = [], set()
+                twin = {"k": "\u212a", "K": "\u212a", "ss": "\u00df", "SS": "\u00df", "s": "\u017f", "S": "\u017f", "i": "\u0131", "I": "\u0131",
+                        "fi": "\ufb01", "FI": "\ufb01", "st": "\ufb05", "ST": "\ufb05"}
                 for n in spelled:
-                    if not re.fullmatch(r"[A-Za-z_][A-Za-z0-9_]*", n) or n in seen or lookup_ci(param, n) is None:
+                    r2 = rng.random()
+                    if r2 < 0.45:            # the caller's own spelling: upper / lower / swapped / random case, a non-ASCII case twin
+                        n = rng.choice([n.upper(), n.lower(), n.swapcase(), rcase(rng, n)])
+                    elif r2 < 0.55:
+                        for a, b2 in twin.items():
+                            if a in n:
+                                n = n.replace(a, b2, 1)
+                                break
+                    if n in seen or lookup_ci(param, n) is None:
                         continue
                     seen.add(n)
                     d = lookup_ci(param, n)
@@ -986,6 +1059,7 @@ def run_device_ops(param_info, types: dict, ops, res: Result | None, fails: list
     for op in ops:
         pre = lib.snapshot()
         lib.log = []
+        started_before = getattr(lib, "started", 0)
         line, out, raw = do_op(proc, op)
         lines.append(line)
         outs.append(out)
@@ -998,8 +1072,14 @@ def run_device_ops(param_info, types: dict, ops, res: Result | None, fails: list
             if out.startswith("exc:"):
                 count("op_error_" + out[4:])
         oop = op
+        if op[0] == "startwp":
+            bad = oracle_start(proc, lib, list(op[1]), param_info.param, arrays, pre, raw, started_before)
+            if count:
+                count("start_with_params_judged")
+            if bad:
+                fails.append((bad[0], bad[1], op))
         if op[0] == "startwp" and isinstance(raw, list):
-            # judged as the batch write it performs (the zero-fill policy itself is not part of the property)
+            # and, as the batch write it hands to set_par_multiple, against one-at-a-time on that table
             oop = ("mset", raw)
         bad = oracle_refusal(proc, lib, oop, param_info.param, arrays, pre, raw)
         if bad:
@@ -1627,6 +1707,16 @@ def corpus_layouts():
     yield {"defs": [["DATA_big", "Data_" + "0" * 4300 + "7"]], "types": t, "n_ops": 0, "ops_seed": 0}
     yield {"defs": [["DATA_a", "Data_3"], ["PAR_e", "Data_a[" + big + "]"]], "types": t, "n_ops": 0, "ops_seed": 0}
     yield {"defs": [["DATA_ok", "Data_" + "0" * 4299 + "7"], ["PAR_z", "Par_" + "0" * 4299 + "5"]], "types": t, "n_ops": 2, "ops_seed": 0}
+    # start_with_params with keywords spelled in another letter case than the source (documented as allowed), omitted
+    # parameters (zero-fill), a non-ASCII case twin, and two spellings of one name in one call
+    yield {"defs": [["PAR_T_Hold", "FPar_3"], ["PAR_n_rep", "Par_2"], ["DATA_cfg", "Data_4"], ["PAR_Gain", "Data_cfg[1]"], ["PAR_offs", "Data_cfg[2]"],
+                    ["PAR_k", "Par_5"]],
+           "types": {**t, "4": ["float64", False]},
+           "ops": [["startwp", [["t_hold", 1.5], ["N_REP", 7]]], ["mget", ["T_Hold", "n_rep", "Gain", "offs", "k"]],
+                   ["startwp", [["T_Hold", 2.5], ["gain", 0.5], ["OFFS", -3], ["\u212a", 9]]], ["mget", ["t_hold", "GAIN", "offs", "K"]],
+                   ["startwp", []], ["mget", ["T_HOLD", "n_rep", "gain", "offs", "k"]],
+                   ["startwp", [["t_hold", 4.0], ["T_HOLD", 4.0], ["n_rep", 1]]], ["startwp", [["n_rep", 3], ["N_rep", 4]]],
+                   ["mset", [["t_hold", 1.0], ["T_HOLD", 2.0]]], ["mget", ["t_hold", "T_Hold"]]]}
     # the limits Adwin_Base enforces: Par/FPar 1..80, Data 1..200, element >= 1
     edge = [["DATA_hi", "Data_200"], ["DATA_over", "Data_201"], ["DATA_zero", "Data_0"], ["PAR_p1", "Par_1"], ["PAR_p80", "Par_80"],
             ["PAR_p81", "Par_81"], ["PAR_p0", "Par_0"], ["PAR_f80", "FPar_80"], ["PAR_f81", "FPar_81"], ["PAR_f0", "FPar_0"],
